@@ -27,7 +27,7 @@ package engine
 //@ at call i.gun.Shoot assert [not-early] done(ctx) || now >= let_of(waiter.Wait, next)
 
 //@ func (i *instance) Run
-//@ props C03 C05
+//@ props C03 C05 C12
 //@ env i.metrics.Request != i.metrics.Response && i.metrics.InstanceFinish != i.metrics.Request && i.metrics.InstanceFinish != i.metrics.Response
 //@ env i.metrics.InstanceStart != i.metrics.Request && i.metrics.InstanceStart != i.metrics.Response && i.metrics.InstanceStart != i.metrics.InstanceFinish
 //@ ghost dReq = counterVal[i.metrics.Request]
@@ -43,6 +43,7 @@ package engine
 //@ ensures [shot-or-discard-per-token] (ev(shoot) - old(ev(shoot))) + (ev(report) - old(ev(report))) <= ev(token) - old(ev(token))
 //@ ensures [request-metric] counterVal[i.metrics.Request] - old(counterVal[i.metrics.Request]) == ev(shoot) - old(ev(shoot))
 //@ ensures [response-metric-or-failure] counterVal[i.metrics.Response] - old(counterVal[i.metrics.Response]) == ev(shoot) - old(ev(shoot)) || recoverErr != nil
+//@ ensures [stops-only-when-finished-cancelled-out-of-ammo-or-failed] imp(recoverErr == nil, leftOf[i.schedule] == 0)
 //@ ensures [finish-counted-once] counterVal[i.metrics.InstanceFinish] == old(counterVal[i.metrics.InstanceFinish]) + 1
 //@ modifies ev(acquire_ok), ev(release), ev(token), ev(shoot), ev(report), counterVal[i.metrics.Request], counterVal[i.metrics.Response]
 //@ modifies counterVal[i.metrics.InstanceStart], counterVal[i.metrics.InstanceFinish], leftOf[i.schedule], startedOf[i.schedule], timerDeadline
